@@ -22,7 +22,7 @@ LEVEL = "fault_enumeration"
 RULE = (
     "case = (real child process behaviour: well-behaved echo server, exits after k messages for k=0..3, ignores SIGTERM after signalling readiness, never reads stdin, floods stdout, closes stdout, "
     "closes stdin, slow start, ignores SIGTERM while flooding / while never reading, floods server-to-client requests; or a command that cannot be started: missing path, directory, non-executable file) x (exit path: normal, exception in body, outer CancelScope.cancel(), move_on_after around the "
-    "whole context, cancellation arriving while the context is already shutting down, a 2..100 ms timeout around the context that fires while it is being entered) x (moment: before the first message, request in flight, after a response); the product is enumerated (quick: every (behaviour, exit path) pair with rotating moments; thorough: full product x 3 jitters); "
+    "whole context, cancellation arriving while the context is already shutting down, a 2..100 ms timeout around the context that fires while it is being entered) x (context entered as StdioClient, through stdio_client() or through the StdioTransport wrapper) x (moment: before the first message, request in flight, after a response); the product is enumerated (quick: every (behaviour, exit path) pair with rotating moments; thorough: full product x 3 jitters); "
     "measured by the harness: context exit duration <= 2 x 1 s grace + 3 s slack, no /proc entry (running or zombie) for the child at the very moment the context has been left and again after a <=1 s settle, open-fd count equal to the count before entry, a request "
     "pending when the child dies ends in an exception, an unstartable command makes entering raise; non-trivial = behaviour other than well-behaved or exit path other than normal; distinct = distinct cell"
 )
@@ -113,6 +113,7 @@ BEHAVIOURS = ["well_behaved", "exit_at_0", "exit_at_1", "exit_at_2", "exit_at_3"
               "ignore_sigterm+flood", "ignore_sigterm+never_reads", "flood_requests"]
 SPAWN_FAIL = ["missing_path", "directory", "not_executable"]
 EXITS = ["normal", "exception", "cancel", "move_on_after", "cancel_during_exit", "timeout_during_enter"]
+ENTRIES = ["client", "function", "transport"]  # StdioClient, stdio_client(), StdioTransport
 ENTER_DEADLINES = [0.002, 0.01, 0.03, 0.06, 0.1]  # a timeout around the context that fires while (or just after) the child is being started
 MOMENTS = ["before_first", "in_flight", "after_response"]
 GRACE_BOUND = 2 * 1.0 + 3.0
@@ -202,12 +203,29 @@ def run_cell(case: Dict[str, Any]) -> Dict[str, Any]:
             else:
                 scope = anyio.CancelScope() if exit_path != "move_on_after" else anyio.move_on_after(case.get("deadline", 0.6))
             with scope:
-                client = StdioClient(params)
+                # the context may be the client class, the stdio_client() function or the transport wrapper
+                entry = case.get("entry", "client")
+                if entry == "function":
+                    from chuk_mcp.transports.stdio.stdio_client import stdio_client
+
+                    client = stdio_client(params)
+                elif entry == "transport":
+                    from chuk_mcp.transports.stdio.transport import StdioTransport
+
+                    client = StdioTransport(params)
+                else:
+                    client = StdioClient(params)
                 try:
-                    async with client:
+                    async with client as entered_:
                         obs["entered"] = True
-                        obs["pid"] = client.process.pid if client.process else None
-                        r, w = client.get_streams()
+                        pids_ = find_marker(marker)
+                        obs["pid"] = pids_[0] if pids_ else None
+                        if entry == "function":
+                            r, w = entered_
+                        elif entry == "transport":
+                            r, w = await entered_.get_streams()
+                        else:
+                            r, w = client.get_streams()
                         try:
                             if moment in ("in_flight", "after_response"):
                                 if moment == "after_response":
@@ -431,7 +449,7 @@ def check(case: Dict[str, Any]) -> Outcome:
     out = Outcome()
     beh, exit_path = case["child"], case["exit"]
     out.nontrivial = beh != "well_behaved" or exit_path != "normal"
-    out.classes = (f"child:{beh}", f"exit:{exit_path}", f"moment:{case.get('moment', 'before_first')}")
+    out.classes = (f"child:{beh}", f"exit:{exit_path}", f"moment:{case.get('moment', 'before_first')}", f"entry:{case.get('entry', 'client')}")
     obs = run_cell_guarded(case)
     fails = judge(case, obs)
     if not fails:
@@ -466,6 +484,21 @@ def cells(full: bool) -> List[Dict[str, Any]]:
             for mo in moments:
                 cs.append({"child": beh, "exit": ex, "moment": mo})
             i += 1
+    for j, c_ in enumerate(cs):
+        c_["entry"] = ENTRIES[j % len(ENTRIES)]
+    if full:
+        # and every (behaviour, exit path) through each kind of context at one moment
+        for beh in BEHAVIOURS:
+            for ex in EXITS:
+                if ex == "timeout_during_enter":
+                    continue
+                for en in ENTRIES[1:]:
+                    cs.append({"child": beh, "exit": ex, "moment": "before_first", "entry": en})
+    else:
+        for ex in ("normal", "exception", "cancel", "move_on_after", "cancel_during_exit"):
+            for en in ENTRIES[1:]:
+                cs.append({"child": "ignore_sigterm", "exit": ex, "moment": "before_first", "entry": en})
+                cs.append({"child": "well_behaved", "exit": ex, "moment": "after_response", "entry": en})
     for beh in SPAWN_FAIL:
         cs.append({"child": beh, "exit": "normal", "moment": "before_first"})
     # make sure the classic combination is always there
